@@ -13,6 +13,8 @@
                consumes the next token afterwards on every non-error path (the sub-expression is delimited: `if c {`, `(e)`,
                `[a, b]`); the statement forms let / assignment / return are the reviewed exceptions. An operand parser with an
                open tail (`else if` parsed by parse_expression) swallows the rest of the chain.
+  INPUT-JOIN      the REPL appends a newline before every continuation line it reads (a chain typed over two lines stays the chain
+               that was typed).
   USED-FLAG-RECURSE  an operand contributes exactly one value to the chain only if the parser's value-usage pass
                (set_is_used_expr and its helpers) has decided `value_is_used` for every expression below it (the default is
                true, and the evaluator pushes a value for every expression flagged true). Every field of every Expression_
@@ -265,6 +267,61 @@ OPEN_TAIL_OK = {
     "parser::parse_return": "`return e` never yields a value to the chain",
 }
 INFIX_FN = "parser::parse_expression"
+
+
+def input_join(P, res):
+    """INPUT-JOIN: the interactive front end assembles a multi-line input by appending a newline *before* each continuation
+    line. Appending it after glues the first continuation line to the previous one, and `10 - 4 -` + `3` becomes `10 - 4 -3`
+    (the lexer reads `-3` as one literal): a chain typed over two lines is no longer the chain that was typed."""
+    f = P.funcs.get("cli_session::read_multiline_syntax")
+    if f is None:
+        raise M.MissingAnchor("cli_session::read_multiline_syntax not found")
+    n = 0
+    for bi, t in f.calls():
+        if not (M.callee_name(t) or "").endswith("String::push_str") or len(t["args"]) < 2:
+            continue
+        # the continuation line: a push_str whose argument comes from a readline call, into the accumulated source
+        r = f.root_of(t["args"][1], through_named=True)
+        src_l = f.root_of(t["args"][0])
+        cur = r
+        from_readline = False
+        for _ in range(6):
+            if cur[0] == "place":
+                dd = [d for d in f.defs.get(cur[1]["l"], []) if d[1] == "term"]
+                if len(dd) != 1:
+                    break
+                cur = ("call", dd[0][0], dd[0][2])
+                continue
+            if cur[0] != "call":
+                break
+            if "readline" in (M.callee_name(cur[2]) or ""):
+                from_readline = True
+                break
+            if not cur[2]["args"]:
+                break
+            cur = f.root_of(cur[2]["args"][0], through_named=True)
+        if not from_readline or src_l[0] != "place":
+            continue
+        n += 1
+        nl = []
+        for b2, t2 in f.calls():
+            if (M.callee_name(t2) or "").endswith("String::push") and len(t2["args"]) == 2:
+                c = M.op_const(t2["args"][1])
+                tgt = f.root_of(t2["args"][0])
+                if c is not None and c.get("v") == 10 and tgt[0] == "place" and tgt[1]["l"] == src_l[1]["l"]:
+                    nl.append(b2)
+        # between the readline and the push_str of its result, a newline is pushed (the newline push dominates push_str and
+        # is itself after the readline)
+        rl_bb = cur[1]
+        ok = any(f.dominates(rl_bb, b2) and f.dominates(b2, bi) for b2 in nl)
+        key = "cli_session::read_multiline_syntax # continuation line %d" % n
+        if ok:
+            res.ok("INPUT-JOIN", key + ": a newline is appended before the continuation line")
+        else:
+            res.bad("INPUT-JOIN", key + " # glued",
+                    "a continuation line read by the REPL is appended to the input without a newline in front of it: the last token of the previous line "
+                    "and the first of this one are lexed together (`10 - 4 -` + `3` reads as `10 - 4 -3`)", f.loc(t["span"]))
+    res.floor("INPUT-JOIN", "continuation lines appended to the input", n, 1)
 
 
 def operand_closed(P, res):
@@ -523,6 +580,7 @@ def run(ctx, res):
                 res.sample({"rule": "INFIX-SHAPE", "accumulator": acc, "rhs_parser": rhs_fn, "line": S.line(c)})
     used_flag_recurse(sh, res)
     operand_closed(ctx.P, res)
+    input_join(ctx.P, res)
     res.extra["tables"] = {"two_char_ops": two, "one_char_ops": one, "token_to_kind": t2k}
     res.extra["functions_analysed"] = 5
     res.explanation = (
